@@ -335,4 +335,421 @@ Section Proofs.
     - rewrite cnt_repeat_true by reflexivity. lia.
   Qed.
 
+  (* ---------------- counting Valid slots under single updates ---------------- *)
+
+  Lemma cv_upd_valid : forall sl p k v, p < length sl -> isv (nth p sl E) = false ->
+    cv (upd p (Valid k v) sl) = cv sl + 1.
+  Proof.
+    intros sl p k v Hp Hn. unfold cv. pose proof (cnt_upd _ isv E sl p (Valid k v) Hp) as Hc.
+    rewrite Hn in Hc. cbn [is_valid] in Hc. lia.
+  Qed.
+
+  Lemma cv_upd_replace : forall sl p k v, p < length sl -> isv (nth p sl E) = true ->
+    cv (upd p (Valid k v) sl) = cv sl.
+  Proof.
+    intros sl p k v Hp Hn. unfold cv. pose proof (cnt_upd _ isv E sl p (Valid k v) Hp) as Hc.
+    rewrite Hn in Hc. cbn [is_valid] in Hc. lia.
+  Qed.
+
+  Lemma cv_upd_deleted : forall sl p, p < length sl -> isv (nth p sl E) = true ->
+    cv (upd p (@Deleted K V) sl) + 1 = cv sl.
+  Proof.
+    intros sl p Hp Hn. unfold cv. pose proof (cnt_upd _ isv E sl p (@Deleted K V) Hp) as Hc.
+    rewrite Hn in Hc. cbn [is_valid] in Hc. lia.
+  Qed.
+
+  Lemma cv_le_length : forall sl, cv sl <= length sl.
+  Proof. intros. apply cnt_le_length. Qed.
+
+  Lemma cv_app_empty : forall sl n, cv (sl ++ repeat E n) = cv sl.
+  Proof. intros. unfold cv. rewrite cnt_app, cnt_repeat_false by reflexivity. lia. Qed.
+
+  (* ---------------- rehash ---------------- *)
+
+  Notation omapT := (omap K V).
+  Notation cap := (capacity K V).
+
+  Lemma rehash_ok : forall (m : omapT) c,
+    cv (slots m) = len m -> len m < Nat.max c mincap ->
+    exists m', rehash K V h mincap m c = Done m' /\
+               cap m' = Nat.max c mincap /\ len m' = len m /\ cv (slots m') = len m'.
+  Proof.
+    intros m c Hcv Hlt. unfold rehash, capacity.
+    destruct (Nat.compare_spec (length (slots m)) (Nat.max c mincap)) as [Heq|Hl|Hg].
+    - exists m. auto.
+    - destruct (rehash_values_ok (length (slots m)) (Nat.max c mincap)
+                  (slots m ++ repeat E (Nat.max c mincap - length (slots m))))
+        as [sl' [Hr [Hlen [Hcv' _]]]].
+      + rewrite app_length. lia.
+      + rewrite app_length, repeat_length. lia.
+      + rewrite cv_app_empty. lia.
+      + rewrite Hr. eexists. split; [reflexivity|]. cbn [slots len].
+        rewrite Hlen, Hcv', cv_app_empty, app_length, repeat_length. repeat split; lia.
+    - destruct (rehash_values_ok (length (slots m)) (Nat.max c mincap) (slots m))
+        as [sl' [Hr [Hlen [Hcv' Htl]]]]; try lia.
+      rewrite Hr. eexists. split; [reflexivity|]. cbn [slots len].
+      rewrite firstn_length. split; [lia|]. split; [reflexivity|].
+      unfold cv. rewrite (cnt_firstn_all _ isv E).
+      + fold (cv sl'). lia.
+      + intros p Hp1 Hp2. apply Htl; lia.
+  Qed.
+
+  Lemma rehash_in_place_ok : forall (m : omapT),
+    cv (slots m) = len m -> len m < cap m ->
+    exists m', rehash_in_place K V h m = Done m' /\
+               cap m' = cap m /\ len m' = len m /\ cv (slots m') = len m'.
+  Proof.
+    intros m Hcv Hlt. unfold rehash_in_place, capacity in *.
+    destruct (rehash_values_ok (length (slots m)) (length (slots m)) (slots m))
+      as [sl' [Hr [Hlen [Hcv' _]]]]; try lia.
+    rewrite Hr. eexists. split; [reflexivity|]. cbn [slots len]. repeat split; lia.
+  Qed.
+
+  (* the reachable-state invariant *)
+  Definition Inv (m : omapT) : Prop :=
+    cv (slots m) = len m /\ (cap m = 0 \/ (mincap <= cap m /\ len m < cap m)).
+
+  Lemma Inv_empty : Inv empty_map.
+  Proof. split; [reflexivity|left; reflexivity]. Qed.
+
+  Hypothesis Hmin : 4 <= mincap.
+
+  Lemma reclaim_ok : forall (m : omapT),
+    cv (slots m) = len m -> mincap <= cap m -> len m < cap m ->
+    exists m', reclaim K V h mincap rv m = Done m' /\
+               cap m' = cap m /\ len m' = len m /\ cv (slots m') = len m'.
+  Proof.
+    intros m Hcv Hmc Hlt. unfold reclaim. destruct (fix_rehash_in_place rv).
+    - apply rehash_in_place_ok; assumption.
+    - destruct (rehash_ok m (cap m) Hcv ltac:(lia)) as [m' [Hr [Hc [Hl Hcv']]]].
+      exists m'. repeat split; auto. lia.
+  Qed.
+
+  Lemma grow_if_full_ok : forall (m : omapT), Inv m ->
+    exists m1, grow_if_full K V h mincap m = Done m1 /\
+               cv (slots m1) = len m1 /\ len m1 = len m /\ mincap <= cap m1 /\ len m1 + 1 < cap m1.
+  Proof.
+    intros m [Hcv Hc]. unfold grow_if_full, max_len.
+    pose proof (cv_le_length (slots m)) as Hle. fold (cap m) in Hle.
+    destruct (Nat.leb_spec (cap m * 15 / 16) (len m)) as [Hfull|Hroom].
+    - destruct (rehash_ok m (cap m * 2) Hcv ltac:(lia)) as [m' [Hr [Hc' [Hl Hcv']]]].
+      exists m'. repeat split; auto; lia.
+    - exists m. repeat split; auto; lia.
+  Qed.
+
+  Lemma shrink_ok : forall (m : omapT),
+    cv (slots m) = len m -> mincap <= cap m -> len m < cap m ->
+    exists m', shrink_if_sparse K V h mincap m = Done m' /\ Inv m'.
+  Proof.
+    intros m Hcv Hmc Hlt. unfold shrink_if_sparse, min_len.
+    destruct (Nat.leb_spec (len m) (cap m * 7 / 16)) as [Hs|Hs].
+    - destruct (rehash_ok m (cap m / 2) Hcv ltac:(lia)) as [m' [Hr [Hc' [Hl Hcv']]]].
+      exists m'. split; [exact Hr|]. split; [exact Hcv'|]. right. lia.
+    - exists m. split; [reflexivity|]. split; [exact Hcv|]. right. lia.
+  Qed.
+
+  (* ---------------- insert (free_index) ---------------- *)
+
+  Lemma free_index_loop_ok : forall sl c q, q < c -> isv (nth q sl E) = false ->
+    forall fuel pos, pos < c -> dist c pos q < fuel ->
+    exists p, free_index_loop K V fuel sl c pos = Done p /\ p < c /\ isv (nth p sl E) = false.
+  Proof.
+    intros sl c q Hq Hfree. induction fuel as [|f IH]; intros pos Hpos Hd; [lia|].
+    cbn [free_index_loop]. destruct (nth pos sl E) as [| |k v] eqn:Hs.
+    - exists pos. rewrite Hs. auto.
+    - exists pos. rewrite Hs. auto.
+    - assert (Hne : pos <> q) by (intros ->; rewrite Hs in Hfree; discriminate).
+      apply IH; [apply next_pos_lt; exact Hpos|].
+      pose proof (dist_next c pos q Hpos Hq Hne). lia.
+  Qed.
+
+  Lemma insert_ok : forall (m : omapT) k v, Inv m ->
+    exists m', insert K V h mincap m k v = Done m' /\ Inv m'.
+  Proof.
+    intros m k v HI. unfold insert, insert_fuel, probe_fuel.
+    destruct (grow_if_full_ok m HI) as [m1 [Hg [Hcv [Hl [Hmc Hroom]]]]]. rewrite Hg.
+    assert (Hex : cnt isv (slots m1) < length (slots m1)) by (fold (cv (slots m1)); fold (cap m1); lia).
+    destruct (cnt_lt_exists _ isv E (slots m1) Hex) as [q [Hq Hqf]].
+    assert (Hc0 : 0 < cap m1) by lia.
+    destruct (free_index_loop_ok (slots m1) (cap m1) q Hq Hqf (cap m1) (hpos K h k (cap m1)))
+      as [p [Hf [Hp Hpf]]].
+    { apply hpos_lt; exact Hc0. }
+    { apply dist_lt; [apply hpos_lt; exact Hc0|exact Hq]. }
+    rewrite Hf. eexists. split; [reflexivity|]. unfold do_insert, Inv, capacity. cbn [slots len].
+    rewrite upd_length, cv_upd_valid by assumption. split; [lia|]. right. unfold capacity in *. lia.
+  Qed.
+
+  (* ---------------- wrap-guarded probe loops ---------------- *)
+
+  Lemma rem_ge1 : forall c start pos, pos < c -> start < c -> 1 <= rem c start pos.
+  Proof. intros. unfold rem. destruct (Nat.ltb_spec pos start); lia. Qed.
+
+  Section Guarded.
+    Hypothesis Hguard : fix_insert_wrap_guard rv = true.
+
+    Lemma ior_loop_ok : forall c start k pred nv, start < c ->
+      forall fuel sl pos free,
+        length sl = c -> pos < c -> rem c start pos <= fuel ->
+        (forall p, free = Some p -> p < c /\ isv (nth p sl E) = false) ->
+        exists r, ior_loop K V keqb rv fuel sl c start k pred nv pos free = Done r /\
+                  length (ior_slots K V r) = c /\ cv (ior_slots K V r) = cv sl /\
+                  (forall p, ior_free K V r = Some p -> p < c /\ isv (nth p (ior_slots K V r) E) = false).
+    Proof.
+      intros c start k pred nv Hs. induction fuel as [|f IH]; intros sl pos free Hlen Hpos Hrem Hfree.
+      { pose proof (rem_ge1 c start pos Hpos Hs). lia. }
+      cbn [ior_loop]. rewrite Hguard. cbn [andb].
+      assert (Hcont : forall free', (forall p, free' = Some p -> p < c /\ isv (nth p sl E) = false) ->
+        exists r, (if next_pos c pos =? start
+                   then Done {| ior_free := free'; ior_ret := None; ior_slots := sl; ior_full_cycle := true |}
+                   else ior_loop K V keqb rv f sl c start k pred nv (next_pos c pos) free') = Done r /\
+                  length (ior_slots K V r) = c /\ cv (ior_slots K V r) = cv sl /\
+                  (forall p, ior_free K V r = Some p -> p < c /\ isv (nth p (ior_slots K V r) E) = false)).
+      { intros free' Hfree'. destruct (Nat.eqb_spec (next_pos c pos) start) as [Heq|Hne].
+        - eexists. split; [reflexivity|]. cbn [ior_slots ior_free]. auto.
+        - apply IH; auto; [apply next_pos_lt; exact Hpos|].
+          pose proof (rem_next c start pos Hpos Hs Hne). lia. }
+      destruct (nth pos sl E) as [| |k' v'] eqn:Hsl.
+      - eexists. split; [reflexivity|]. cbn [ior_slots ior_free]. repeat split; auto.
+        + inversion H; subst; exact Hpos.
+        + inversion H; subst. rewrite Hsl. reflexivity.
+      - apply Hcont. intros p Hp. destruct free as [p0|].
+        + apply Hfree. exact Hp.
+        + inversion Hp; subst. rewrite Hsl. auto.
+      - destruct (keqb k' k && pred v').
+        + eexists. split; [reflexivity|]. cbn [ior_slots ior_free].
+          rewrite upd_length, cv_upd_replace by (try lia; rewrite Hsl; reflexivity).
+          repeat split; auto; discriminate.
+        + apply Hcont. exact Hfree.
+    Qed.
+
+    Lemma insert_or_replace_ok : forall (m : omapT) k pred nv, Inv m ->
+      exists m' r, insert_or_replace K V keqb h mincap rv m k pred nv = Done (m', r) /\ Inv m'.
+    Proof.
+      intros m k pred nv HI. unfold insert_or_replace, insert_or_replace_fuel, probe_fuel.
+      destruct (grow_if_full_ok m HI) as [m1 [Hg [Hcv [Hl [Hmc Hroom]]]]]. rewrite Hg.
+      assert (Hc0 : 0 < cap m1) by lia.
+      pose proof (hpos_lt k (cap m1) Hc0) as Hst.
+      destruct (ior_loop_ok (cap m1) (hpos K h k (cap m1)) k pred nv Hst (cap m1) (slots m1)
+                  (hpos K h k (cap m1)) None) as [r [Hr [Hlen [Hcvr Hfr]]]]; auto.
+      { rewrite rem_start. lia. }
+      { intros p Hp. discriminate. }
+      rewrite Hr.
+      set (m2 := match ior_free K V r with
+                 | Some pos => do_insert K V (ior_slots K V r) (len m1) pos k nv
+                 | None => {| slots := ior_slots K V r; len := len m1 |}
+                 end).
+      assert (Hm2 : cv (slots m2) = len m2 /\ cap m2 = cap m1 /\ len m2 <= len m1 + 1).
+      { unfold m2. destruct (ior_free K V r) as [p|] eqn:Hfree.
+        - destruct (Hfr p eq_refl) as [Hp Hpv]. unfold do_insert, capacity. cbn [slots len].
+          rewrite upd_length, cv_upd_valid by (try lia; exact Hpv). unfold capacity in *. lia.
+        - unfold capacity. cbn [slots len]. unfold capacity in *. lia. }
+      destruct Hm2 as [Hcv2 [Hcap2 Hlen2]].
+      destruct (ior_full_cycle K V r && fix_rehash_in_place rv).
+      - destruct (rehash_in_place_ok m2 Hcv2 ltac:(lia)) as [m3 [Hr3 [Hc3 [Hl3 Hcv3]]]].
+        rewrite Hr3. exists m3, (ior_ret K V r). split; [reflexivity|].
+        split; [exact Hcv3|]. right. lia.
+      - exists m2, (ior_ret K V r). split; [reflexivity|]. split; [exact Hcv2|]. right. lia.
+    Qed.
+  End Guarded.
+
+  (* ---------------- remove_key ---------------- *)
+
+  Lemma remove_key_loop_ok : forall c start k, start < c ->
+    forall fuel sl pos n,
+      length sl = c -> pos < c -> rem c start pos <= fuel -> cv sl = n ->
+      exists sl' n' full, remove_key_loop K V keqb fuel sl c start k pos n = Done (sl', n', full) /\
+                          length sl' = c /\ cv sl' = n' /\ n' <= n.
+  Proof.
+    intros c start k Hs. induction fuel as [|f IH]; intros sl pos n Hlen Hpos Hrem Hcv.
+    { pose proof (rem_ge1 c start pos Hpos Hs). lia. }
+    cbn [remove_key_loop].
+    assert (Hcont : forall sl1 n1, length sl1 = c -> cv sl1 = n1 -> n1 <= n ->
+      exists sl' n' full,
+        (if next_pos c pos =? start then Done (sl1, n1, true)
+         else remove_key_loop K V keqb f sl1 c start k (next_pos c pos) n1) = Done (sl', n', full) /\
+        length sl' = c /\ cv sl' = n' /\ n' <= n).
+    { intros sl1 n1 Hl1 Hc1 Hn1. destruct (Nat.eqb_spec (next_pos c pos) start) as [Heq|Hne].
+      - exists sl1, n1, true. auto.
+      - destruct (IH sl1 (next_pos c pos) n1) as [sl' [n' [full [Hr [Hl' [Hc' Hn']]]]]]; auto.
+        + apply next_pos_lt; exact Hpos.
+        + pose proof (rem_next c start pos Hpos Hs Hne). lia.
+        + exists sl', n', full. repeat split; auto. lia. }
+    destruct (nth pos sl E) as [| |k' v'] eqn:Hsl.
+    - exists sl, n, false. auto.
+    - apply Hcont; auto.
+    - destruct (keqb k' k).
+      + assert (Hv : isv (nth pos sl E) = true) by (rewrite Hsl; reflexivity).
+        pose proof (cv_upd_deleted sl pos ltac:(lia) Hv) as Hd.
+        apply Hcont; [rewrite upd_length; exact Hlen|lia|lia].
+      + apply Hcont; auto.
+  Qed.
+
+  Lemma remove_key_ok : forall (m : omapT) k, Inv m ->
+    exists m', remove_key K V keqb h mincap rv m k = Done m' /\ Inv m'.
+  Proof.
+    intros m k HI. unfold remove_key, remove_key_fuel, probe_fuel.
+    destruct (Nat.eqb_spec (cap m) 0) as [Hz|Hnz]; [exists m; auto|].
+    destruct HI as [Hcv [Hc|[Hmc Hlt]]]; [lia|].
+    pose proof (hpos_lt k (cap m) ltac:(lia)) as Hst.
+    destruct (remove_key_loop_ok (cap m) (hpos K h k (cap m)) k Hst (cap m) (slots m)
+                (hpos K h k (cap m)) (len m)) as [sl [n [full [Hr [Hlen [Hcvn Hn]]]]]]; auto.
+    { rewrite rem_start. lia. }
+    rewrite Hr.
+    destruct (Nat.eqb_spec n (len m)) as [Heq|Hne].
+    - assert (Hm1 : exists m2, (if full && true then reclaim K V h mincap rv {| slots := sl; len := len m |}
+                                 else Done {| slots := sl; len := len m |}) = Done m2 /\ Inv m2).
+      { destruct full; cbn [andb].
+        - destruct (reclaim_ok {| slots := sl; len := len m |}) as [m2 [Hr2 [Hc2 [Hl2 Hcv2]]]];
+            unfold capacity in *; cbn [slots len] in *; try lia.
+          exists m2. split; [exact Hr2|]. split; [exact Hcv2|]. right. unfold capacity. lia.
+        - eexists. split; [reflexivity|]. split; cbn [slots len]; [lia|]. right.
+          unfold capacity in *. cbn [slots]. lia. }
+      destruct Hm1 as [m2 [Hr2 HI2]]. rewrite Hr2. exists m2. auto.
+    - rewrite andb_false_r. cbn [slots].
+      apply shrink_ok; unfold capacity in *; cbn [slots len]; lia.
+  Qed.
+
+  (* ---------------- remove_value ---------------- *)
+
+  Lemma remove_value_loop_ok : forall c start k v, start < c ->
+    forall fuel sl pos, pos < c -> rem c start pos <= fuel ->
+      exists r, remove_value_loop K V keqb veqb fuel sl c start k v pos = Done r /\
+                (forall p b, r = (Some p, b) -> p < c /\ isv (nth p sl E) = true).
+  Proof.
+    intros c start k v Hs. induction fuel as [|f IH]; intros sl pos Hpos Hrem.
+    { pose proof (rem_ge1 c start pos Hpos Hs). lia. }
+    cbn [remove_value_loop].
+    assert (Hcont : exists r,
+      (if next_pos c pos =? start then Done (None, true)
+       else remove_value_loop K V keqb veqb f sl c start k v (next_pos c pos)) = Done r /\
+      (forall p b, r = (Some p, b) -> p < c /\ isv (nth p sl E) = true)).
+    { destruct (Nat.eqb_spec (next_pos c pos) start) as [Heq|Hne].
+      - eexists. split; [reflexivity|]. intros p b Hpb. discriminate.
+      - apply IH; [apply next_pos_lt; exact Hpos|].
+        pose proof (rem_next c start pos Hpos Hs Hne). lia. }
+    destruct (nth pos sl E) as [| |k' v'] eqn:Hsl.
+    - eexists. split; [reflexivity|]. intros p b Hpb. discriminate.
+    - exact Hcont.
+    - destruct (keqb k' k && veqb v' v).
+      + eexists. split; [reflexivity|]. intros p b Hpb. inversion Hpb; subst. rewrite Hsl. auto.
+      + exact Hcont.
+  Qed.
+
+  Lemma remove_value_ok : forall (m : omapT) k v, Inv m ->
+    exists m', remove_value K V keqb veqb h mincap rv m k v = Done m' /\ Inv m'.
+  Proof.
+    intros m k v HI. unfold remove_value, remove_value_fuel, probe_fuel.
+    destruct (Nat.eqb_spec (cap m) 0) as [Hz|Hnz]; [exists m; auto|].
+    pose proof HI as [Hcv [Hc|[Hmc Hlt]]]; [lia|].
+    pose proof (hpos_lt k (cap m) ltac:(lia)) as Hst.
+    destruct (remove_value_loop_ok (cap m) (hpos K h k (cap m)) k v Hst (cap m) (slots m)
+                (hpos K h k (cap m))) as [r [Hr Hfound]]; auto.
+    { rewrite rem_start. lia. }
+    rewrite Hr. destruct r as [[p|] full].
+    - destruct (Hfound p full eq_refl) as [Hp Hpv]. unfold remove_index.
+      pose proof (cv_upd_deleted (slots m) p Hp Hpv) as Hd.
+      apply shrink_ok; unfold capacity in *; cbn [slots len]; rewrite ?upd_length; lia.
+    - destruct full.
+      + destruct (reclaim_ok m Hcv Hmc Hlt) as [m2 [Hr2 [Hc2 [Hl2 Hcv2]]]].
+        exists m2. split; [exact Hr2|]. split; [exact Hcv2|]. right. lia.
+      + exists m. auto.
+  Qed.
+
+  (* ---------------- lookups: every table ---------------- *)
+
+  Lemma value_loop_total : forall c start k, start < c ->
+    forall fuel sl pos, pos < c -> rem c start pos <= fuel ->
+      exists r, value_loop K V keqb fuel sl c start k pos = Done r.
+  Proof.
+    intros c start k Hs. induction fuel as [|f IH]; intros sl pos Hpos Hrem.
+    { pose proof (rem_ge1 c start pos Hpos Hs). lia. }
+    cbn [value_loop].
+    assert (Hcont : exists r, (if start =? next_pos c pos then Done None
+                               else value_loop K V keqb f sl c start k (next_pos c pos)) = Done r).
+    { destruct (Nat.eqb_spec start (next_pos c pos)) as [Heq|Hne]; [eauto|].
+      apply IH; [apply next_pos_lt; exact Hpos|].
+      pose proof (rem_next c start pos Hpos Hs ltac:(lia)). lia. }
+    destruct (nth pos sl E) as [| |k' v']; [eauto|exact Hcont|].
+    destruct (keqb k' k); [eauto|exact Hcont].
+  Qed.
+
+  Theorem value_total : forall (m : omapT) k, exists r, value K V keqb h m k = Done r.
+  Proof.
+    intros m k. unfold value, value_fuel, probe_fuel.
+    destruct (Nat.eqb_spec (cap m) 0) as [Hz|Hnz]; [eauto|].
+    pose proof (hpos_lt k (cap m) ltac:(lia)) as Hst.
+    apply value_loop_total; auto. rewrite rem_start. lia.
+  Qed.
+
+  Lemma values_loop_total : fix_iter_finished rv = true ->
+    forall c start k, start < c ->
+    forall fuel sl pos acc, pos < c -> rem c start pos <= fuel ->
+      exists r, values_loop K V keqb rv fuel sl c start k pos acc = Done r.
+  Proof.
+    intros Hfin c start k Hs. induction fuel as [|f IH]; intros sl pos acc Hpos Hrem.
+    { pose proof (rem_ge1 c start pos Hpos Hs). lia. }
+    cbn [values_loop]. rewrite Hfin. cbn [andb].
+    assert (Hcont : forall acc', exists r, (if start =? next_pos c pos then Done acc'
+                               else values_loop K V keqb rv f sl c start k (next_pos c pos) acc') = Done r).
+    { intros acc'. destruct (Nat.eqb_spec start (next_pos c pos)) as [Heq|Hne]; [eauto|].
+      apply IH; [apply next_pos_lt; exact Hpos|].
+      pose proof (rem_next c start pos Hpos Hs ltac:(lia)). lia. }
+    destruct (nth pos sl E) as [| |k' v']; [eauto|apply Hcont|].
+    destruct (keqb k' k); [apply Hcont|apply Hcont].
+  Qed.
+
+  Theorem values_total : fix_iter_finished rv = true ->
+    forall (m : omapT) k, exists r, values K V keqb h rv m k = Done r.
+  Proof.
+    intros Hfin m k. unfold values, values_fuel, probe_fuel.
+    destruct (Nat.eqb_spec (cap m) 0) as [Hz|Hnz]; [eauto|].
+    pose proof (hpos_lt k (cap m) ltac:(lia)) as Hst.
+    apply values_loop_total; auto. rewrite rem_start. lia.
+  Qed.
+
+  (* ---------------- all histories ---------------- *)
+
+  Lemma reserve_ok : forall (m : omapT) c, Inv m ->
+    exists m', reserve K V h mincap m c = Done m' /\ Inv m'.
+  Proof.
+    intros m c HI. unfold reserve. destruct (Nat.ltb_spec (cap m) c) as [Hlt|Hge]; [|exists m; auto].
+    pose proof HI as [Hcv Hc].
+    pose proof (cv_le_length (slots m)) as Hle. fold (cap m) in Hle.
+    destruct (rehash_ok m c Hcv ltac:(lia)) as [m' [Hr [Hc' [Hl Hcv']]]].
+    exists m'. split; [exact Hr|]. split; [exact Hcv'|]. right. lia.
+  Qed.
+
+  Theorem step_total :
+    fix_insert_wrap_guard rv = true -> fix_iter_finished rv = true ->
+    forall (m : omapT) (o : op K V), Inv m ->
+      exists m', step K V keqb veqb h mincap rv m o = Done m' /\ Inv m'.
+  Proof.
+    intros Hguard Hfin m o HI. unfold step. destruct o as [k v|k p v|k|k v|c|k|k]; cbn [step_fuel].
+    - apply insert_ok; exact HI.
+    - destruct (insert_or_replace_ok Hguard m k p v HI) as [m' [r [Hr HI']]].
+      unfold insert_or_replace in Hr. rewrite Hr. exists m'. auto.
+    - apply remove_key_ok; exact HI.
+    - apply remove_value_ok; exact HI.
+    - apply reserve_ok; exact HI.
+    - destruct (value_total m k) as [r Hr]. unfold value in Hr. rewrite Hr. exists m. auto.
+    - destruct (values_total Hfin m k) as [r Hr]. unfold values in Hr. rewrite Hr. exists m. auto.
+  Qed.
+
+  Theorem run_total_from :
+    fix_insert_wrap_guard rv = true -> fix_iter_finished rv = true ->
+    forall (ops : list (op K V)) (m : omapT), Inv m ->
+      exists m', run K V keqb veqb h mincap rv m ops = Done m' /\ Inv m'.
+  Proof.
+    intros Hguard Hfin. unfold run. induction ops as [|o r IH]; intros m HI; cbn [run_fuel].
+    - exists m. auto.
+    - destruct (step_total Hguard Hfin m o HI) as [m1 [Hs HI1]]. unfold step in Hs. rewrite Hs.
+      apply IH; exact HI1.
+  Qed.
+
+  Theorem run_total :
+    fix_insert_wrap_guard rv = true -> fix_iter_finished rv = true ->
+    forall ops : list (op K V),
+      exists m', run K V keqb veqb h mincap rv empty_map ops = Done m' /\ Inv m'.
+  Proof. intros Hguard Hfin ops. apply run_total_from; auto. apply Inv_empty. Qed.
+
 End Proofs.
